@@ -302,14 +302,14 @@ class TM:
                 for code in el:
                     if lazy and need:
                         self.Tm = gfx.mat_mul((1, 0, 0, 1, Tc * Th, 0), self.Tm)
-                    w0 = Fr(widths[code], 1000)
+                    w0 = Fr(widths.get(code, 0), 1000)  # outside Widths and no MissingWidth: 0 (ISO table 122)
                     adv = w0 * Tfs * Th
                     m = gfx.mat_mul(self.Tm, ctm)
                     d = Fr(font["descent"], 1000) * Tfs
                     box = [(0, d + rise), (adv, d + rise), (adv, d + rise + Tfs), (0, d + rise + Tfs)]
                     bb = gfx.bound([gfx.mat_pt(m, p) for p in box])
                     out.append({
-                        "text": enc.get(code, chr(code)), "font": font["name"], "matrix": m, "adv": adv, "bbox": bb,
+                        "text": enc.get(code, chr(code)) if code >= 32 else None, "font": font["name"], "matrix": m, "adv": adv, "bbox": bb,
                         "size": bb[3] - bb[1], "fill": (self.gcs, g["fill"][1]) if D_QCS in self.dev else g["fill"],
                     })
                     tx = w0 * Tfs * Th + (Tw * Th if code == 32 else 0)
@@ -432,11 +432,14 @@ META = {
         "line) with only g rg Tc Tz Tf TL in between -- after Q the pen is where it was and every parameter has its value from before q; state = (canonical real interpreter state, model state), deduplicated; "
         "every transition re-executes the whole history on the real interpreter and compares every glyph (text, font, matrix, advance, box, "
         "size, fill colour, colour space); in every state at the depth bound every show operator (and Do+show) is fired separately; every history up to "
-        "split2_depth is split into 2 content streams at every token boundary (white space kept left, right, or CR/LF on both sides; only the first variant beyond split3_depth) and up to split3_depth into every 3-stream division plus empty streams, and histories up to "
+        "split2_depth is split into 2 content streams at every white-space byte of the program, inside literal strings included (byte kept left or right; between tokens also replaced by LF | CR LF; only 'kept left' beyond split3_depth) and up to split3_depth into every 3-stream division at those bytes plus empty streams, and histories up to "
         "full_depth go through a complete PDF file. Width-table set 0 is explored in full, set 1 (names rebound to other tables) from the 'text' root to depth_wset1. "
         "Family samename: two font dictionaries with the same BaseFont name but other Widths and another Encoding, bound to F1/F2 (both ways round); every "
         "page of 1..same_single (Tf, Tj) items, and every two-page document of pages with 1..same_pair items x the 4 resource bindings, each document "
         "processed by one resource manager, one device and one interpreter. "
+        "Family rawsplit: 4 hand-written programs with white space inside literal strings (blank, LF, CR, CR LF, escaped end-of-line), comments, a hex string, "
+        "an array and an inline image (dictionary and ID/EI framing), cut before and after every white-space byte into 2 streams (both seams) and at every pair of "
+        "such bytes into 3 streams. "
         "Family leftover: every list of 1..2 operands from {30, 40, (A), /F2} left unconsumed at the end of a page (or of a form XObject), followed -- "
         "directly, after an unrelated page, or after the form -- by a page with one of 12 operators lacking operands (inside and outside BT, plus a bare cm) "
         "and then show operators; one interpreter/device per document, every page judged on its own. "
@@ -473,7 +476,7 @@ def observe(ltpage) -> List[Dict[str, Any]]:
 
 def glyph_diff(e: Dict[str, Any], o: Dict[str, Any]) -> List[str]:
     bad = []
-    if e["text"] != o["text"]:
+    if e["text"] is not None and e["text"] != o["text"]:  # codes without a character (LF in a string): text not judged
         bad.append("text")
     if e["font"] != o["font"]:
         bad.append("font")
@@ -561,7 +564,10 @@ class Checker:
         st.case((self.wset, tuple(streams), full), nontrivial=bool(exp),
                 outcome=h64([(o["text"], o["font"], o["matrix"], o["adv"], o["fill"]) for o in obs]) if exc is None else gfx.exc_sig(exc))
         if bad:
-            if self.classified <= 40:
+            if len(streams) > 1 and any(bytes(x).endswith(b"ID") for x in streams[:-1]):
+                # diagnosed: the offset of the image data is taken relative to the stream holding "ID" but applied to the next one
+                sigs = ["C05/inline-image-ID-at-end-of-stream"]
+            elif self.classified <= 40:
                 sigs = classify(evs, self.wset, obs, exc)
                 if "unclassified" in sigs[0]:
                     self.classified += 1
@@ -579,28 +585,39 @@ class Checker:
         return gfx.canon_interp(it, dev) if exc is None else ("exc", gfx.exc_sig(exc))
 
     def splits(self, events, model: TM, full: bool, variants: int = 3, three: bool = True):
-        """every division of the program into 2 (and 3) streams at token boundaries"""
+        """every division of the program into 2 (and 3) streams at a white-space byte -- between tokens as well as
+        inside a literal string such as (A B); the bytes themselves are never changed, except in the third variant
+        which replaces a separator between two tokens by LF | CR LF"""
         evs = terminated(events, model)
         toks = gfx.tokens(evs)
         n = len(toks)
         if n < 2:
             return
-        done = 0
-        for i in range(1, n):
-            left, right = b" ".join(toks[:i]), b" ".join(toks[i:])
-            for a, b in ((left + b" ", right), (left, b" " + right), (left + b"\n", b"\r\n" + right))[:variants]:
+        raw = b" ".join(toks)
+        left, allc = gfx.ws_cuts(raw)
+        done = self.byte_splits(events, model, raw, left if variants == 1 else allc, left if three else [], full)
+        if variants >= 3:
+            for i in range(1, n):
+                a, b = b" ".join(toks[:i]) + b"\n", b"\r\n" + b" ".join(toks[i:])
                 self.execute(events, model, streams=[a, b], full=full, what="split-2")
                 done += 1
         if three:
-            for i in range(1, n):
-                for j in range(i + 1, n):
-                    parts = [b" ".join(toks[:i]) + b" ", b" ".join(toks[i:j]) + b"\n", b" ".join(toks[j:])]
-                    self.execute(events, model, streams=parts, full=full, what="split-3")
-                    done += 1
             # an empty stream in the middle and at both ends changes nothing either
-            self.execute(events, model, streams=[b"", gfx.program(evs), b""], full=full, what="split-empty")
+            self.execute(events, model, streams=[b"", raw, b""], full=full, what="split-empty")
             done += 1
         self.st.add("split_programs", done)
+
+    def byte_splits(self, events, model, raw: bytes, cuts2, cuts3, full: bool) -> int:
+        done = 0
+        for c in cuts2:
+            self.execute(events, model, streams=[raw[:c], raw[c:]], full=full, what="split-2")
+            done += 1
+        for x in range(len(cuts3)):
+            for y in range(x + 1, len(cuts3)):
+                i, j = cuts3[x], cuts3[y]
+                self.execute(events, model, streams=[raw[:i], raw[i:j], raw[j:]], full=full, what="split-3")
+                done += 1
+        return done
 
 
 def search(root_name: str, wset: int, tier: str, st, prefix: Tuple = (), max_depth: Optional[int] = None,
@@ -711,6 +728,41 @@ def same_shard(shard, tier, st):
     st.add("samename_documents", n)
 
 
+# ------------------------------------------------------------------ family: white space inside tokens, split across streams
+RAW_PROGRAMS = [
+    # white space inside literal strings: blank, LF, CR, CR LF (an unescaped end-of-line is one LF byte, ISO 7.3.4.2)
+    (b"BT /F1 8 Tf (A B) Tj (A\nB) Tj (A\rB) Tj (A\r\nB) Tj ET",
+     (("BT",), ("Tf", "/F1", 8), ("Tj", b"A B"), ("Tj", b"A\nB"), ("Tj", b"A\nB"), ("Tj", b"A\nB"), ("ET",))),
+    # escaped end-of-line (line continuation) inside strings; comments containing blanks and a parenthesis
+    (b"BT /F1 8 Tf (A\\\nB) Tj (A\\\r\nC) Tj 2 Tc % a comment, (not a string\r\n (C) Tj % tail comment\n (A) Tj ET",
+     (("BT",), ("Tf", "/F1", 8), ("Tj", b"AB"), ("Tj", b"AC"), ("Tc", 2), ("Tj", b"C"), ("Tj", b"A"), ("ET",))),
+    # white space inside a hex string and inside an array (also inside a string that is inside the array)
+    (b"BT /F2 10 Tf <41 20\n42> Tj [ (A) -250\r\n(B  C) ] TJ ET",
+     (("BT",), ("Tf", "/F2", 10), ("Tj", b"A B"), ("TJ", (b"A", -250, b"B  C")), ("ET",))),
+    # an inline image (dictionary and data framing) between two text objects: the text is what it would be without it
+    (b"BT /F1 8 Tf (A) Tj ET q 4 0 0 4 8 8 cm BI /W 1 /H 1 /BPC 8 /CS /G ID x EI Q BT /F1 8 Tf 3 Tw (A B) Tj ET",
+     (("BT",), ("Tf", "/F1", 8), ("Tj", b"A"), ("ET",), ("q",), ("cm", 4, 0, 0, 4, 8, 8), ("Q",), ("BT",), ("Tf", "/F1", 8), ("Tw", 3),
+      ("Tj", b"A B"), ("ET",))),
+]
+
+
+def raw_shard(i: int, tier: str, st):
+    raw, evs = RAW_PROGRAMS[i]
+    ck = Checker(0, st, tier)
+    model = run_model(evs, 0)
+    ck.execute(evs, model, streams=[raw], what="raw program")
+    ck.execute(evs, model, streams=[raw], full=True, what="raw program, complete file")
+    left, allc = gfx.ws_cuts(raw)
+    n = ck.byte_splits(evs, model, raw, allc, allc if tier == "thorough" else left, False)
+    n += ck.byte_splits(evs, model, raw, allc, [], True)
+    st.states += n + 1
+    st.transitions += n
+    st.add("split_programs", n)
+    st.add("real_runs_fast", ck.bench.runs)
+    st.add("real_runs_complete_file", ck.bench.full_runs)
+    st.sample({"family": "rawsplit", "program": raw, "streams": [raw[:allc[len(allc) // 2]], raw[allc[len(allc) // 2]:]]})
+
+
 # ------------------------------------------------------------------ family: operands left over at the end of a page / form
 LEFT_POOL = [30, 40, b"A", "/F2"]
 LEFT_BARE = [("Td",), ("TD",), ("Tf",), ("Tc",), ("Tw",), ("TL",), ("Tj",), ("'",), ("Td", 5), ("Tf", "/F2"), ("Tm", 1, 0, 0, 1), ('"', b"B")]
@@ -800,7 +852,7 @@ def shards(tier):
     from mc.core import Stats
 
     b = BOUNDS[tier]
-    out = [("same", r1, r2) for r1 in (0, 1) for r2 in (None, 0, 1)] + [("left", 0, 0)]
+    out = [("same", r1, r2) for r1 in (0, 1) for r2 in (None, 0, 1)] + [("left", 0, 0)] + [("raw", i, 0) for i in range(len(RAW_PROGRAMS))]
     for wset in b["wsets"]:
         for root in ROOTS:
             if wset != 0 and root != "text":
@@ -822,6 +874,9 @@ def run_shard(shard, tier, st):
         return
     if kind == "left":
         left_shard(tier, st)
+        return
+    if kind == "raw":
+        raw_shard(shard[1], tier, st)
         return
     if kind == "pre":
         sd = min(b["shard_depth"], depth_of(tier, root, wset))
@@ -866,5 +921,8 @@ def replay(case):
     bad = diff(exp, obs) if exc is None else ["exception"]
     if not bad:
         return []
-    return [{"signature": sig, "expected": repr(gfx.fl(exp)), "observed": repr(obs if exc is None else gfx.exc_sig(exc))}
-            for sig in classify(events, wset, obs, exc)]
+    if len(streams) > 1 and any(x.endswith(b"ID") for x in streams[:-1]):
+        sigs = ["C05/inline-image-ID-at-end-of-stream"]
+    else:
+        sigs = classify(events, wset, obs, exc)
+    return [{"signature": sig, "expected": repr(gfx.fl(exp)), "observed": repr(obs if exc is None else gfx.exc_sig(exc))} for sig in sigs]
